@@ -14,7 +14,12 @@
      class_frame        a class of the result against the class it came from (see below)
    Hypothesis `get_specialized J = Ok _`: the hierarchy work-lists did not exhaust their fuel
    (the Rust loops have no visited set and do not terminate on a cyclic hierarchy);
-   section 5 below (fuel_suffices) discharges it for acyclic hierarchies.
+   section 5 below (fuel_suffices) discharges it for every acyclic hierarchy: the model's fuel IS the
+   number of steps the terminating Rust loops take.
+     cal_ref J cal libs m   the method reference m of the jar (official names) in intermediary names
+                            (SpecializedMethods::remap with the calamus remapper, inheritance through the jars)
+     named_ref J cal libs M b'   the name the mappings M give, through inheritance, to the intermediary reference b'
+     last_remap f l b'      the f-image of the delegate of the LAST pair of l whose bridge f maps to b'
      depth_ok d G c     every chain of edges of the table G starting at c has at most d edges
      cost d G c         the number of paths of G that start at c (the empty path included)
      hier_ok d J        depth_ok d holds for every class of both hierarchy tables of the jar
@@ -115,6 +120,70 @@ Theorem C15_add_specialized_spec : forall J cal libs M M',
     Forall2 (class_frame (named_ref J cal libs M) P) (ms_classes M) (ms_classes M').
 Proof. exact add_specialized_spec. Qed.
 Print Assumptions C15_add_specialized_spec.
+
+(* the same with the converse directions — the pair list that reaches the insertion is EXACTLY the bridge
+   pairs of the jar in intermediary names: sound; complete (every bridge pair of the jar has its
+   intermediary bridge as a key); one entry per key; when several bridges of the jar become the same
+   intermediary reference the last one in the order of bridge_to_specialized provides the delegate
+   (SpecializedMethods::remap collects into a map); without such a disagreement the pair itself is in P *)
+Theorem C15_add_specialized_exact : forall J cal libs M M',
+  NoDup (map class_key (ms_classes M)) ->
+  add_specialized J cal libs M = Ok M' ->
+  exists P,
+    (forall b' s', In (b', s') P ->
+       exists b s, is_bridge_pair J b s /\ cal_ref J cal libs b = Ok b' /\ cal_ref J cal libs s = Ok s') /\
+    (forall b s, is_bridge_pair J b s ->
+       exists b' s', cal_ref J cal libs b = Ok b' /\ cal_ref J cal libs s = Ok s' /\ exists s'', In (b', s'') P) /\
+    NoDup (map fst P) /\
+    (exists b2s s2b, get_specialized J = Ok (b2s, s2b) /\
+       forall b', map_get mref_eqb b' P = last_remap (cal_ref J cal libs) b2s b') /\
+    (forall b s b' s', is_bridge_pair J b s -> cal_ref J cal libs b = Ok b' -> cal_ref J cal libs s = Ok s' ->
+       (forall b2 s2, is_bridge_pair J b2 s2 -> cal_ref J cal libs b2 = Ok b' -> cal_ref J cal libs s2 = Ok s') ->
+       In (b', s') P) /\
+    ms_ns M' = ms_ns M /\ ms_doc M' = ms_doc M /\
+    Forall2 (class_frame (named_ref J cal libs M) P) (ms_classes M) (ms_classes M').
+Proof. exact add_specialized_exact. Qed.
+Print Assumptions C15_add_specialized_exact.
+
+(* what last_remap picks: a pair of the list, and no later pair has its bridge mapped to b' *)
+Theorem C15_last_remap_spec : forall f l b' x, last_remap f l b' = Some x ->
+  exists l1 b s l2, l = l1 ++ (b, s) :: l2 /\ f b = Ok b' /\ f s = Ok x /\
+                    forall b2 s2 x2, In (b2, s2) l2 -> f b2 = Ok b' -> f s2 = Ok x2 -> False.
+Proof. exact last_remap_Some. Qed.
+Print Assumptions C15_last_remap_spec.
+
+(* THE MAIN SENTENCE, end to end, in the completeness direction: (b, s) a bridge pair of the jar, b' and s'
+   their intermediary references, c the row of the mappings for the bridge's class (a delegate is inserted only
+   when that row exists), no other bridge pair of the jar landing on the same intermediary bridge or on the same
+   (class, delegate key) — the property's "at most one bridge per delegate and class".  Then the result holds,
+   in that class and under the delegate's key, exactly: the delegate's descriptor, the names [delegate's
+   intermediary name; the name the mappings give the bridge through inheritance] (names2: an empty name is
+   absent), javadoc and parameters of the old entry if there was one.  When the mappings give the bridge no
+   name, named_ref answers the bridge's intermediary name (map_method_ref_obj keeps the name it was given). *)
+Theorem C15_bridge_gets_name : forall J cal libs M M' b s b' s' c,
+  NoDup (map class_key (ms_classes M)) ->
+  add_specialized J cal libs M = Ok M' ->
+  is_bridge_pair J b s -> cal_ref J cal libs b = Ok b' -> cal_ref J cal libs s = Ok s' ->
+  (forall b2 s2 b2' s2', is_bridge_pair J b2 s2 -> cal_ref J cal libs b2 = Ok b2' -> cal_ref J cal libs s2 = Ok s2' ->
+     b2' = b' \/ (mr_class b2' = mr_class b' /\ snd s2' = snd s') -> b2 = b) ->
+  In c (ms_classes M) -> class_key c = Some (mr_class b') ->
+  exists c' nm, In c' (ms_classes M') /\ c_names c' = c_names c /\ c_doc c' = c_doc c /\ c_fields c' = c_fields c /\
+    named_ref J cal libs M b' = Ok nm /\
+    find_meth (snd s') (c_methods c')
+    = Some (mkMeth (mr_desc s') (names2 (mr_name s') nm)
+              (doc_of (find_meth (snd s') (c_methods c))) (params_of (find_meth (snd s') (c_methods c)))).
+Proof. exact bridge_gets_name. Qed.
+Print Assumptions C15_bridge_gets_name.
+
+(* its hypotheses are satisfiable: /repo's fixture bridge MyNode.setData(Object) -> setData(Integer), end to end *)
+Theorem C15_bridge_gets_name_example : end_to_end_example.
+Proof. exact end_to_end_example_holds. Qed.
+Print Assumptions C15_bridge_gets_name_example.
+
+(* a bridge has one delegate *)
+Theorem C15_bridge_pair_functional : forall J b s s2, is_bridge_pair J b s -> is_bridge_pair J b s2 -> s = s2.
+Proof. exact bridge_pair_fun. Qed.
+Print Assumptions C15_bridge_pair_functional.
 
 (* no bridge pair of the jar lands on (class cname, key k) => that entry is returned unchanged:
    ordinary methods, synthetics calling zero or several methods, incompatible signatures cause
@@ -224,13 +293,28 @@ Theorem C15_get_specialized_fuel : forall J, get_specialized J = get_specialized
 Proof. exact get_specialized_is_f. Qed.
 Print Assumptions C15_get_specialized_fuel.
 
-(* acyclic hierarchy (chains of at most d edges, decidable) and fuel at least the largest number of
-   paths from a class (decidable): the model does not answer Err, for every such fuel, and all of
-   them give the same answer *)
-Theorem C15_fuel_suffices : forall J d,
-  hier_ok d J = true -> (fuel_bound d J <= jar_fuel J)%nat -> get_specialized J <> Err.
+(* the model's fuel (Model.jar_fuel: paths counted to a depth of the number of rows of each table) is the
+   bound of walk_exact, whatever depth d shows the hierarchy acyclic (pigeonhole: on a table whose chains
+   are bounded at all, no chain is longer than the number of rows) *)
+Theorem C15_depth_rows : forall G d, (forall c, depth_ok d G c = true) -> forall c, depth_ok (length G) G c = true.
+Proof. exact depth_rows. Qed.
+Print Assumptions C15_depth_rows.
+
+Theorem C15_jar_fuel_exact : forall J d, hier_ok d J = true -> jar_fuel J = fuel_bound d J.
+Proof. exact jar_fuel_exact. Qed.
+Print Assumptions C15_jar_fuel_exact.
+
+(* acyclic hierarchy (chains of at most d edges for some d; decidable): the model does not answer Err —
+   no condition on the fuel is left *)
+Theorem C15_fuel_suffices : forall J d, hier_ok d J = true -> get_specialized J <> Err.
 Proof. exact fuel_suffices. Qed.
 Print Assumptions C15_fuel_suffices.
+
+(* and the fuel is not generous: with one unit less some work-list of the jar, started at one class, fails *)
+Theorem C15_fuel_sharp : forall J d f, hier_ok d J = true -> (f < jar_fuel J)%nat ->
+  exists c, walk f (ix_parents J) [c] [] = Err \/ walk f (ix_children J) [c] [] = Err.
+Proof. exact fuel_sharp. Qed.
+Print Assumptions C15_fuel_sharp.
 
 Theorem C15_fuel_irrelevant : forall J d f1 f2,
   hier_ok d J = true -> (fuel_bound d J <= f1)%nat -> (fuel_bound d J <= f2)%nat ->
@@ -248,23 +332,22 @@ Theorem C15_ranked_hier_ok : forall J rk D, ranked J rk D = true -> hier_ok (S D
 Proof. exact ranked_hier_ok. Qed.
 Print Assumptions C15_ranked_hier_ok.
 
-Theorem C15_fuel_suffices_ranked : forall J rk D,
-  ranked J rk D = true -> (fuel_bound (S D) J <= jar_fuel J)%nat -> get_specialized J <> Err.
+Theorem C15_fuel_suffices_ranked : forall J rk D, ranked J rk D = true -> get_specialized J <> Err.
 Proof. exact fuel_suffices_ranked. Qed.
 Print Assumptions C15_fuel_suffices_ranked.
 
-(* a cheap sufficient condition: at most b direct super types and at most b direct subtypes per
-   class, chains of at most d edges, and 1 + b + ... + b^d <= the model's fuel *)
-Theorem C15_fuel_suffices_degree : forall J b d,
+(* a bound on the work: at most b direct super types and at most b direct subtypes per class, chains of
+   at most d edges: no work-list of the jar takes more than 1 + b + ... + b^d steps *)
+Theorem C15_fuel_degree_bound : forall J b d,
   hier_ok d J = true -> degree_le b (ix_parents J) = true -> degree_le b (ix_children J) = true ->
-  (geo b d <= jar_fuel J)%nat -> get_specialized J <> Err.
-Proof. exact fuel_suffices_degree. Qed.
-Print Assumptions C15_fuel_suffices_degree.
+  (jar_fuel J <= geo b d)%nat.
+Proof. exact fuel_degree_bound. Qed.
+Print Assumptions C15_fuel_degree_bound.
 
 (* non-vacuity and sharpness: a diamond hierarchy is inside the hypotheses (5 paths from 4 classes,
-   the doubly reached class is listed twice; 4 units of fuel are not enough); the condition on the
-   fuel cannot be dropped for the model's quadratic fuel: an acyclic tower of nine diamonds (28
-   classes, 36 edges) needs 2045 steps, more than jar_fuel = 1444 *)
+   the doubly reached class is listed twice; jar_fuel = 5, 4 units of fuel are not enough); the step
+   count is not polynomial in the size of the tables: an acyclic tower of nine diamonds (28 classes,
+   36 edges) takes 2045 steps (= its jar_fuel), a quadratic fuel of 1444 fails *)
 Theorem C15_fuel_examples : fuel_examples.
 Proof. exact fuel_examples_hold. Qed.
 Print Assumptions C15_fuel_examples.
